@@ -145,7 +145,10 @@ func (r *Reconciler) Reconcile(ctx context.Context, request reconcile.Request) (
 	currentRS, requeueAfter := selectCurrentReplicaSet(instance, activeRS, upToDateRS, now)
 
 	// Remove all ReplicaSets if not used anymore
-	if err = r.cleanupReplicaSet(reqLogger, now, replicaSetList, currentRS, upToDateRS); err != nil {
+	// The ReplicaSet still recorded as active in the stored status is left alone here: it can only go once the
+	// status that replaces it has been written (a later reconcile), otherwise a failed status update would leave
+	// the ExtendedDaemonSet without its active ReplicaSet.
+	if err = r.cleanupReplicaSet(reqLogger, now, withoutReplicaSet(replicaSetList, instance.Status.ActiveReplicaSet), currentRS, upToDateRS); err != nil {
 		return reconcile.Result{RequeueAfter: requeueAfter}, err
 	}
 
@@ -610,6 +613,21 @@ func (r *Reconciler) cleanupReplicaSet(logger logr.Logger, now time.Time, rsList
 	}
 
 	return utilserrors.NewAggregate(errs)
+}
+
+// withoutReplicaSet returns the list without the ReplicaSet of the given name.
+func withoutReplicaSet(rsList *datadoghqv1alpha1.ExtendedDaemonSetReplicaSetList, name string) *datadoghqv1alpha1.ExtendedDaemonSetReplicaSetList {
+	if name == "" {
+		return rsList
+	}
+	out := &datadoghqv1alpha1.ExtendedDaemonSetReplicaSetList{}
+	for id := range rsList.Items {
+		if rsList.Items[id].Name != name {
+			out.Items = append(out.Items, rsList.Items[id])
+		}
+	}
+
+	return out
 }
 
 // shouldDeleteERS returns true if the ers is nil or has no pods attached based on its status.
